@@ -337,13 +337,13 @@ func fmtArg(g *rng.R) interface{} {
 	case 0:
 		return g.Intn(1000) - 500
 	case 1:
-		return rng.Pick(g, []string{"", "a", "hello world", "%d", "x\ny", "é"})
+		return rng.Pick(g, []string{"", "a", "hello world", "%d", "x\ny", "é", "done\n", "\n", "two\n\n", " ", "\t", " lead", "trail ", "\r\n"})
 	case 2:
 		return float64(g.Intn(1000)) / 8
 	case 3:
 		return nil
 	case 4:
-		return errors.New("e")
+		return errors.New(rng.Pick(g, []string{"e", "ends with newline\n", ""}))
 	case 5:
 		return pt{g.Intn(5), 2}
 	case 6:
